@@ -28,7 +28,16 @@ def command_lines(ck, wd):
     cnf = os.path.join(wd, "in.cnf")
     with open(cnf, "w") as f:
         f.write("p cnf 5 4\n1 -2 0\n2 3 -4 0\n-1 5 0\n4 -5 0\n")
+    dot = os.path.join(wd, "named.dot")
+    with open(dot, "w") as f:
+        f.write("graph G {\n  alpha -- beta;\n  beta -- gamma;\n  gamma -- delta;\n  delta -- alpha;\n  epsilon -- alpha;\n}\n")
+    gml = os.path.join(wd, "named.gml")
+    with open(gml, "w") as f:
+        f.write("graph [\n node [ id 0 label \"zeta\" ]\n node [ id 1 label \"eta\" ]\n node [ id 2 label \"theta\" ]\n"
+                " edge [ source 0 target 1 ]\n edge [ source 1 target 2 ]\n]\n")
     both = [
+        # graph files whose vertices have names (not numbers): the numbering must not depend on the process
+        ["kcolor", "2", dot], ["tseitin", "first", dot], ["domset", "2", gml], ["kcolor", "3", gml],
         ["randkcnf", "3", "10", "20"], ["randkcnf", "3", "8", "10", "--plant"], ["randkxor", "3", "8", "6"],
         ["php", "5", "4", "2"], ["tseitin", "8", "3"], ["tseitin", "random", "gnp", "7", ".5"],
         ["tseitin", "randomodd", "grid", "2", "3"], ["op", "6", "3"], ["subsetcard", "5", "2"],
@@ -164,7 +173,7 @@ def main(argv=None):
                 jobs.append((rid, k, code, ambient(wd, k, ck.rng), os.path.join(wd, "%s_%d.trace" % (rid, k))))
     ck.count("table_command_lines", len(cmds))
     libs = ["RandomKCNF", "RandomKXOR", "RandomKCNF_planted", "RandomKCNF_dense", "RandomKCNF_dense_b", "RandomKXOR_dense", "left_regular", "regular", "m_edges_sparse", "m_edges_dense",
-            "bipartite_random", "split_random_edges", "add_random_missing_edges"]
+            "bipartite_random", "split_random_edges", "add_random_missing_edges", "networkx_input", "networkx_digraph_input"]
     for name in libs:
         for s in seeds[:3]:
             n += 1
